@@ -53,6 +53,23 @@ Theorem C05_transient_restarts_at_default : forall persistent l n i,
   restored_value (replay (firstn n l)) i = 0%Z /\ restored_map (replay (firstn n l)) i = [].
 Proof. exact transient_restarts_at_default. Qed.
 
+(* the write task hands the store, under an item's id, only what that very item reported (an event or a sync
+   answer), and never deletes: no item's stored state is written by another item *)
+Theorem C05_write_task_provenance : forall persistent ss,
+  provenance_ok (handled ss) (w_log (wtask_run persistent ss)) = true.
+Proof. exact write_task_provenance. Qed.
+
+(* so whatever a restart finds under an item's id, after a crash anywhere, is a value that item reported *)
+Theorem C05_stored_value_was_reported : forall cmds l n i,
+  provenance_ok cmds l = true -> puts i (firstn n l) <> [] ->
+  existsb (cmd_is_put i (restored_value (replay (firstn n l)) i)) cmds = true.
+Proof. exact stored_value_was_reported. Qed.
+
+Example C05_provenance_nonvacuous :
+  provenance_ok [CSet 0 5%Z; CSet 1 9%Z] [LPut 0 5%Z; LSentV 1 1 9%Z] = true /\
+  provenance_ok [CSet 0 5%Z; CSet 1 9%Z] [LPut 0 5%Z; LPut 0 9%Z] = false.
+Proof. split; reflexivity. Qed.
+
 Example C05_nonvacuous :
   let l := [LLinked 1 0; LPut 0 5%Z; LSentV 1 0 5%Z; LPut 0 7%Z; LMap 2 (MUpdate 1 4%Z); LSentM 1 2 (MUpdate 1 4%Z); LSentV 1 0 7%Z] in
   log_ok persistent_item l = true /\ no_delete 0 l /\
